@@ -49,6 +49,7 @@ pub fn gen(rng: &mut Rng, tier: Tier, idx: u64) -> Case {
     let mut c = Case::new("C04", "c04-grammar", sw.fam, Front::P);
     let mut a = gen::gen_packet(rng, &sw);
     maybe_retarget(rng, &sw, &mut a, 200);
+    gen::maybe_retarget_props(rng, sw.fam, &mut a, 40);
     c.style = Style {
         spell: rng.below(3) as u8,
         shuffle: if rng.chance(1, 2) { rng.next_u64() | 1 } else { 0 },
